@@ -309,7 +309,7 @@ def t4_time(w: World, rep: Report, rule: str, lock: str, refund_param='refund_pu
                 kp = _key_params(p, key)
                 if refund_param in kp:
                     refund_paths += 1
-                    ok = any(verified and timeout_param in c.params and 'time()' in (c.hole.text if c.hole else '')
+                    ok = any(verified and timeout_param in c.params and 'time()' in (c.hole.resolved_text if c.hole else '')
                              for c, verified, pos in p.time_checks)
                     if not ok:
                         bad.append(f'path {"/".join(p.branch) or "main"}: the refund key signs without a verified '
@@ -326,8 +326,10 @@ def t4_time(w: World, rep: Report, rule: str, lock: str, refund_param='refund_pu
         rep.check(rule, f'{_vtag(v)}|refund-behind-timelock', not bad, line=v.line, file=REL, why=bad[0] if bad else '',
                   facts={'paths': len(paths), 'refund_paths': refund_paths})
         # deadline expression: the hole is int(time()) + timeout
-        dl = [h for h in v.holes.values() if 'time()' in h.text]
-        ok = bool(dl) and all(_is_now_plus(h.expr, timeout_param) for h in dl)
+        dl = [h for h in v.holes.values() if 'time()' in h.resolved_text or timeout_param in h.params and
+              h.resolved_text.replace(' ', '').startswith(('int(', timeout_param, '_', 'time'))]
+        dl = [h for h in v.holes.values() if timeout_param in h.params]
+        ok = bool(dl) and all(_is_now_plus(h.resolved, timeout_param) for h in dl)
         rep.check(rule, f'{_vtag(v)}|deadline-is-now-plus-timeout', ok, line=v.line, file=REL,
                   why='' if ok else f'the refund deadline is `{dl[0].text if dl else "?"}`, expected int(time()) + {timeout_param}')
 
